@@ -172,6 +172,9 @@ func (c *rankCache) Add(id uint64, n uint64) {
 	// unless the count is 0, which is effectively used
 	// to clear the cache value.
 	if n < c.thresholdValue && n > 0 {
+		// The row is not (or no longer) admitted: drop any count cached for
+		// it, which would otherwise go stale.
+		delete(c.entries, id)
 		return
 	}
 
@@ -184,7 +187,10 @@ func (c *rankCache) Add(id uint64, n uint64) {
 func (c *rankCache) BulkAdd(id uint64, n uint64) {
 	c.mu.Lock()
 	defer c.mu.Unlock()
-	if n < c.thresholdValue {
+	if n < c.thresholdValue || n == 0 {
+		// Not admitted (or empty): drop any count cached for the row, which
+		// would otherwise go stale.
+		delete(c.entries, id)
 		return
 	}
 
